@@ -487,6 +487,9 @@ class Delims:
     te: str = "%}"
     os: str = "{{"
     oe: str = "}}"
+    cs: str = "{#"  # template comment delimiters (only used by "tcomment" nodes)
+    ce: str = "#}"
+    lc: str = "#"  # comment marker for lines of a liquid tag
 
 
 DEFAULT = Delims()
@@ -651,7 +654,7 @@ def node_src(n: Any, d: Delims = DEFAULT) -> str:  # noqa: PLR0911, PLR0912
     if k == "liquid":
         lines = []
         for ln in n["lines"]:
-            lines.extend(line_src(ln))
+            lines.extend(line_src(ln, d))
         return f"{d.ts} liquid\n" + "\n".join(lines) + f"\n{d.te}"
     if k == "comment":
         return _tag(d, "comment") + n["v"] + _tag(d, "endcomment")
@@ -674,19 +677,21 @@ def node_src(n: Any, d: Delims = DEFAULT) -> str:  # noqa: PLR0911, PLR0912
     if k == "block":
         req = " required" if n.get("required") else ""
         return _tag(d, f"block {n['name']}{req}") + block_src(n["body"], d) + _tag(d, "endblock" + (f" {n['name']}" if n.get("endname") else ""))
+    if k == "tcomment":  # template comment, e.g. {# ... #}
+        return d.cs + n["v"] + d.ce
     if k == "src":  # verbatim source fragment
         return n["v"]
     raise ValueError(f"unknown node kind {k}")
 
 
-def line_src(n: Any) -> list:  # noqa: PLR0911, PLR0912
+def line_src(n: Any, d: Delims = DEFAULT) -> list:  # noqa: PLR0911, PLR0912
     """Lines of a {% liquid %} tag for node ``n``."""
     k = n["k"]
 
     def body(nodes):
         out = []
         for c in nodes:
-            out.extend(line_src(c))
+            out.extend(line_src(c, d))
         return out
 
     if k == "echo":
@@ -731,7 +736,7 @@ def line_src(n: Any) -> list:  # noqa: PLR0911, PLR0912
     if k in ("include", "render"):
         return [f"{k} " + partial_expr_src(n)]
     if k == "inline_comment":
-        return ["# " + n["v"]]
+        return [d.lc + " " + n["v"]]
     if k == "call":
         args = [expr_src(a) for a in n["args"]] + [arg_src(a) for a in n["kwargs"]]
         return [f"call {n['name']}" + (" " + ", ".join(args) if args else "")]
